@@ -3,6 +3,28 @@
 # gen: extractor steps whose Lean output the property's Props module imports
 # chain: chain-mode profiles (real app) : (profile, quick histories, thorough histories)
 
+import os, subprocess, time
+
+
+def race_pconc(prop, tier, seed, replay, run, work, verif, repo, goenv, hbin, driver, **kw):
+    """C20, thorough tier: the concurrent family under Go's race detector (runtime evidence for 'no data race')."""
+    if tier != "thorough" or replay:
+        return {}
+    hdir = os.path.join(verif, "harness")
+    rbin = os.path.join(hdir, "bin", "harness.race.test")
+    rc, out, dt = run(["go", "test", "-c", "-race", "-tags", "verif", "-o", rbin, "."], cwd=hdir, env=goenv, timeout=3000)
+    if rc != 0:
+        return {"errors": ["race build failed: " + out[-1500:]]}
+    outp = os.path.join(work, "C20.pconc.race.impl")
+    env = dict(goenv, HARNESS_FAMILY="pconc", HARNESS_OUT=outp, HARNESS_N="20000", VERIF_SEED=str(seed), VERIF_TIER=tier)
+    rc, out, dt = run([rbin, "-test.run", "^TestHarness$", "-test.timeout", "0"], cwd=hdir, env=env, timeout=3000)
+    races = out.count("WARNING: DATA RACE")
+    res = {"evaluations": 20000, "stats": {"pconc-race": {"cases": 20000, "diff": 0, "monfail": races, "races": races, "wall_s": round(dt, 1)}}}
+    if races or rc != 0:
+        res["monfails"] = [("pconc-race|go test -race reported %d data race(s) rc=%d" % (races, rc), out[-3000:])]
+    return res
+
+
 PROPS = {
     "C18": {
         "props_module": "LayerModel.Props.C18",
@@ -28,9 +50,10 @@ PROPS = {
     },
     "C20": {
         "props_module": "LayerModel.Props.C20",
-        "families": [("medianu", 4000, 200000), ("mediani", 4000, 200000), ("pcache", 3000, 100000)],
+        "families": [("medianu", 4000, 200000), ("mediani", 4000, 200000), ("pcache", 3000, 100000), ("pconc", 8000, 200000)],
         "gen": [],
-        "rule": "median families: even-length inputs (the rounding/overflow branch); pcache: operation sequences in which at least one read served a price; distinct = distinct input lines",
+        "rule": "median families: even-length inputs (the rounding/overflow branch); pcache: operation sequences in which at least one read served a price; pconc: concurrent histories in which a read overlaps an update in real time; distinct = distinct input lines",
+        "extra": [race_pconc],
         "level_text": "Theorems: lib.Median on uint64 returns the middle element / the mean of the two middle elements rounded up for every non-empty list with every machine operation wrapped at 2^64 (so no overflow changes the result), the int64 branch arithmetic equals the mean rounded away from zero, the result is independent of collection order, a price is served iff the market is known and at least min (and at least one) exchanges are fresh, and it is the median of exactly the fresh prices; an exchange's stored price only moves forward in time. Tied to the real lib.Median and MarketToExchangePrices by differential op sequences; a history-level specification (latest update per exchange by time) runs as monitor on the implementation's reads.",
         "level_note": "Trusted: Lean kernel; hand-written models Daemon/Median.lean, Daemon/PriceCache.lean; Go map iteration order abstracted (median proved order-independent). Partial: data-race freedom and the Go memory model are runtime behaviour outside any executable model (see DESIGN.md C20).",
         "trusted": ["models Daemon/Median.lean and Daemon/PriceCache.lean written by hand", "time.Time compared as integer nanoseconds (monotonic clock readings not modelled)"],
